@@ -16,7 +16,7 @@ func init() {
 	Registry["C16"] = &Property{
 		Title:       "No input or interleaving crashes or wedges frps or frpc",
 		Run:         runC16,
-		Explanation: "Decides crash/wedge hazards that are visible in the shape of the code: (R1) every read, write, delete and range of a map field of a struct that carries a mutex happens with that mutex held (write mode for mutations), outside constructors; (R2) every make(chan|slice|map, n) whose size derives from a protocol message field is bounded below by a dominating comparison; (R3) channel typestate: each struct-field channel has one close site, protected against a second close (sync.Once, flag or select-probe under a mutex, single-shot worker, owner-terminal Close), and every send on a channel that is closed somewhere is recover-protected or in the closing goroutine; (R4) the unchecked type assertion in each dispatcher handler matches the message type it is registered for; (R6) every value handed to msg.WriteMsg / Dispatcher.Send / MessageTransporter.Send is a pointer to a registered message struct; (R8) handlers that wait (NAT-hole, work-connection requests) are registered through AsyncHandler; (R9) no function returns while holding a mutex it locked (unless a deferred unlock is registered); (R10) results of a failed call are not dereferenced on the path where its error is non-nil. (R11) no two mutex fields are acquired in both orders (lock-order graph over must-held sets, through statically called functions, is acyclic). (R12) the retry loop that fetches a work connection is bounded by the clamped pool count plus one, never by a raw message field (a non-positive bound skips the loop and hands a nil connection to callers that dereference it). Not decided: data races on non-map state, deadlocks between locks and channels, memory exhaustion, panics inside dependencies.",
+		Explanation: "Decides crash/wedge hazards that are visible in the shape of the code: (R1) every read, write, delete and range of a map field of a struct that carries a mutex happens with that mutex held (write mode for mutations), outside constructors; (R2) every make(chan|slice|map, n) whose size derives from a protocol message field is bounded below by a dominating comparison; (R3) channel typestate: each struct-field channel has one close site, protected against a second close (sync.Once, flag or select-probe under a mutex, single-shot worker, owner-terminal Close), and every send on a channel that is closed somewhere is recover-protected or in the closing goroutine; (R4) the unchecked type assertion in each dispatcher handler matches the message type it is registered for; (R6) every value handed to msg.WriteMsg / Dispatcher.Send / MessageTransporter.Send is a pointer to a registered message struct; (R8) handlers that wait (NAT-hole, work-connection requests) are registered through AsyncHandler; (R9) no function returns while holding a mutex it locked (unless a deferred unlock is registered); (R10) results of a failed call are not dereferenced on the path where its error is non-nil. (R11) no two mutex fields are acquired in both orders (lock-order graph over must-held sets, through statically called functions, is acyclic). (R12) the retry loop that fetches a work connection is bounded by the clamped pool count plus one, never by a raw message field (a non-positive bound skips the loop and hands a nil connection to callers that dereference it). (R13) slice bounds derived from strings/bytes Index* results are used only where the result was found non-negative. Not decided: data races on non-map state, deadlocks between locks and channels, memory exhaustion, panics inside dependencies.",
 		Assumptions: commonAssumptions,
 	}
 }
@@ -33,6 +33,7 @@ func runC16(c *engine.Ctx) {
 	c16Panics(c)
 	c16LockOrder(c, li, "R11")
 	c16RetryBound(c, "R12")
+	c16IndexBounds(c, "R13")
 }
 
 func isMutexType(t types.Type) bool {
@@ -42,9 +43,11 @@ func isMutexType(t types.Type) bool {
 
 // ---- R1 ----
 
-func c16Maps(c *engine.Ctx, li *engine.LockInfo) {
+func c16Maps(c *engine.Ctx, li *engine.LockInfo) { c16MapsRule(c, li, "R1") }
+
+func c16MapsRule(c *engine.Ctx, li *engine.LockInfo, rule string) {
 	p := c.P
-	c.Rule("R1", "every access to a map field of a struct that has a mutex field happens with one of the struct's mutexes held (write mode for insert/delete), except in the function that allocates the struct")
+	c.Rule(rule, "every access to a map field of a struct that has a mutex field happens with one of the struct's mutexes held (write mode for insert/delete), except in the function that allocates the struct")
 	// struct -> (mutex fields, map fields)
 	type sinfo struct {
 		name string
@@ -136,7 +139,105 @@ func c16Maps(c *engine.Ctx, li *engine.LockInfo) {
 			}
 		}
 	}
-	c.Note("structs with a mutex and a map field: %d; map fields accessed: %d", structs, len(perField))
+	// containers stored *inside* a guarded map (a slice of routes, an inner map) are shared state too: reading them
+	// (index, range, inner lookup) needs the same mutex, because writers mutate them in place (Routers.Add appends to
+	// and re-sorts the slice it found in the index)
+	nElem := 0
+	for _, f := range p.RepoFuncs() {
+		f := f
+		engine.ForEachInstr(f, func(in ssa.Instruction) {
+			lk, ok := in.(*ssa.Lookup)
+			if !ok {
+				return
+			}
+			fv, base := engine.LoadedField(lk.X)
+			si := byMap[fv]
+			if si == nil {
+				return
+			}
+			if _, local := base.(*ssa.Alloc); local {
+				return
+			}
+			isContainer := func(t types.Type) bool {
+				switch t.Underlying().(type) {
+				case *types.Slice, *types.Map:
+					return true
+				}
+				return false
+			}
+			// element value(s) of this lookup, and element values of nested lookups on them
+			var elems []ssa.Value
+			var collect func(v ssa.Value, d int)
+			seen := map[ssa.Value]bool{}
+			collect = func(v ssa.Value, d int) {
+				if seen[v] || d > 5 || v.Referrers() == nil {
+					return
+				}
+				seen[v] = true
+				if isContainer(v.Type()) {
+					elems = append(elems, v)
+				}
+				for _, r := range *v.Referrers() {
+					switch x := r.(type) {
+					case *ssa.Extract:
+						if x.Index == 0 {
+							collect(x, d+1)
+						}
+					case *ssa.Phi:
+						collect(x, d+1)
+					case *ssa.Lookup:
+						if x.X == v {
+							collect(x, d+1)
+						}
+					}
+				}
+			}
+			collect(lk, 0)
+			for _, ev := range elems {
+				if ev.Referrers() == nil {
+					continue
+				}
+				for _, r := range *ev.Referrers() {
+					var what string
+					switch x := r.(type) {
+					case *ssa.IndexAddr:
+						if x.X == ev {
+							what = "index"
+						}
+					case *ssa.Index:
+						if x.X == ev {
+							what = "index"
+						}
+					case *ssa.Range:
+						what = "range"
+					case *ssa.Lookup:
+						if x.X == ev {
+							what = "inner lookup"
+						}
+					}
+					if what == "" {
+						continue
+					}
+					nElem++
+					held := li.HeldAt(r)
+					okHeld := false
+					for mu := range si.mus {
+						if held[mu] > 0 {
+							okHeld = true
+						}
+					}
+					key := fmt.Sprintf("%s.%s@%s#element-%s", si.name, fv.Name(), p.FuncName(f), strings.ReplaceAll(what, " ", "-"))
+					if okHeld {
+						c.Hold(key, r.Pos(), 1, []string{"held: " + strings.Join(held.Names(), ",")}, "%s of a container stored in %s.%s under its mutex", what, si.name, fv.Name())
+					} else {
+						c.Violate(key, r.Pos(), []string{"locks held here: " + strings.Join(held.Names(), ",")},
+							"%s of a container taken out of the shared map %s.%s after its mutex was released: writers append to / re-sort / update that container in place, a concurrent reader sees a torn or stale view (a protected route can vanish from the reader's slice during a registration)", what, si.name, fv.Name())
+					}
+				}
+			}
+		})
+	}
+	c.Note("structs with a mutex and a map field: %d; map fields accessed: %d; reads of containers stored in them: %d", structs, len(perField), nElem)
 	c.Floor(len(perField), 20)
 }
 
@@ -967,4 +1068,125 @@ func c16RetryBound(c *engine.Ctx, rule string) {
 		c.Check(ok, p.FuncName(f)+">retry-bound", w.Pos(), 2, nil, "the loop runs at least once: bound is the clamped poolCount + 1 (%s)", why)
 	}
 	c.Floor(n, 1)
+}
+
+// c16IndexBounds (R13): the result of strings.Index / IndexByte / LastIndex … is -1 when nothing is found; using it as
+// a slice bound panics. Every slice expression whose bound derives from such a call is reached only on paths where the
+// result was found >= 0 (any spelling: `< 0` false, `>= 0`, `!= -1`, `> k`, `>= k` with k >= 0). The panics are in
+// goroutines without recover (vhost muxer handlers), so one malformed header would take the process down.
+func c16IndexBounds(c *engine.Ctx, rule string) {
+	c.Rule(rule, "a slice bound that derives from a strings/bytes Index* result is used only on paths where that result was found non-negative")
+	p := c.P
+	n := 0
+	isIndexCall := func(v ssa.Value) *ssa.Call {
+		cl, _ := engine.ResultOfCall(v)
+		if cl == nil {
+			return nil
+		}
+		o := engine.CalleeObj(cl)
+		if o == nil || o.Pkg() == nil || !(o.Pkg().Path() == "strings" || o.Pkg().Path() == "bytes") {
+			return nil
+		}
+		if strings.HasPrefix(o.Name(), "Index") || strings.HasPrefix(o.Name(), "LastIndex") {
+			return cl
+		}
+		return nil
+	}
+	// bound expressions: idx, idx+k, idx-k
+	rootIdx := func(v ssa.Value) *ssa.Call {
+		for i := 0; i < 4; i++ {
+			if v == nil {
+				return nil
+			}
+			if cl := isIndexCall(v); cl != nil {
+				return cl
+			}
+			switch x := v.(type) {
+			case *ssa.BinOp:
+				if x.Op == token.ADD || x.Op == token.SUB {
+					if _, isC := x.Y.(*ssa.Const); isC {
+						v = x.X
+						continue
+					}
+				}
+				return nil
+			case *ssa.Convert:
+				v = x.X
+				continue
+			case *ssa.ChangeType:
+				v = x.X
+				continue
+			}
+			return nil
+		}
+		return nil
+	}
+	for _, f := range p.RepoFuncs() {
+		f := f
+		engine.ForEachInstr(f, func(in ssa.Instruction) {
+			sl, ok := in.(*ssa.Slice)
+			if !ok {
+				return
+			}
+			var idxCalls []*ssa.Call
+			for _, b := range []ssa.Value{sl.Low, sl.High} {
+				if cl := rootIdx(b); cl != nil {
+					idxCalls = append(idxCalls, cl)
+				}
+			}
+			if len(idxCalls) == 0 {
+				return
+			}
+			n++
+			key := fmt.Sprintf("%s>slice-bound#%d", p.FuncName(f), n)
+			c.AllPaths(key, engine.PathCheck{Fn: f, Sink: engine.Is(in), KeepLoopFacts: true, Pred: func(st *engine.PathState) string {
+				for _, cl := range idxCalls {
+					nonNeg := false
+					isIdx := func(v ssa.Value) bool { c2, _ := engine.ResultOfCall(v); return c2 == cl }
+					// equality spellings
+					for _, l := range st.Lits {
+						if l.Op != token.EQL {
+							continue
+						}
+						x, y := l.X, l.Y
+						if _, isC := x.(*ssa.Const); isC {
+							x, y = y, x
+						}
+						if !isIdx(x) {
+							continue
+						}
+						if k, ok := engine.ConstInt(y); ok {
+							if (k == -1 && !l.Val) || (k >= 0 && l.Val) {
+								nonNeg = true
+							}
+						}
+					}
+					// ordering spellings
+					if !nonNeg {
+						nonNeg = st.Ordered(func(x ssa.Value, op token.Token, y ssa.Value) bool {
+							if !isIdx(x) {
+								return false
+							}
+							k, ok := engine.ConstInt(y)
+							if !ok {
+								return false
+							}
+							switch op {
+							case token.GEQ:
+								return k >= 0
+							case token.GTR:
+								return k >= -1
+							}
+							return false
+						})
+					}
+					if !nonNeg {
+						return "the slice bound derives from " + engine.Describe(cl) + ", which is -1 when nothing is found, and this path did not establish that it is >= 0: slice bounds out of range panic"
+					}
+				}
+				return ""
+			}}, "Index* result checked before it is used as a slice bound")
+		})
+	}
+	c.Floor(n, 3)
 }
